@@ -335,6 +335,98 @@ pub async fn send_proto(proto: Proto, rng: &mut Rng, ports: &Ports, l: &Logical,
     }
 }
 
+/// the shortest encoding of a THROTTLE command: bulk name and key, numbers as RESP integers
+pub fn resp_command_min(l: &Logical) -> Vec<u8> {
+    let mut v = format!("*{}\r\n$8\r\nTHROTTLE\r\n${}\r\n", if l.q.is_some() { 6 } else { 5 }, l.key.len()).into_bytes();
+    v.extend_from_slice(l.key.as_bytes());
+    v.extend_from_slice(b"\r\n");
+    for n in [Some(l.b), Some(l.c), Some(l.p), l.q].into_iter().flatten() {
+        v.extend_from_slice(format!(":{n}\r\n").as_bytes());
+    }
+    v
+}
+
+/// the longest key whose (shortest) THROTTLE command still fits the 64 KiB buffer of a RESP connection
+pub fn max_resp_key_len(b: i64, c: i64, p: i64) -> usize {
+    let overhead = |len: usize| resp_command_min(&Logical { key: String::new(), b, c, p, q: None }).len() - 1 + len.to_string().len();
+    (65_000..65_536usize).rev().find(|&len| overhead(len) + len <= 65_536).unwrap()
+}
+
+/// `nreq` simultaneous requests `l` (released together by a barrier) over mixed protocols - the first three are one
+/// of each; every request on a connection of its own
+pub async fn simultaneous(ports: &Ports, rng: &mut Rng, l: &Logical, nreq: usize) -> Vec<(Proto, WireAns, u16)> {
+    let barrier = Arc::new(tokio::sync::Barrier::new(nreq));
+    let mut hs = vec![];
+    for i in 0..nreq {
+        let proto = if i < 3 { [Proto::Http, Proto::Grpc, Proto::Resp][i] } else { rng.pick(&[Proto::Http, Proto::Grpc, Proto::Resp]) };
+        let l = l.clone();
+        let mut r = rng.fork();
+        let bar = barrier.clone();
+        let (hp, gp, rp) = (ports.http, ports.grpc, ports.resp);
+        hs.push(tokio::spawn(async move {
+            match proto {
+                Proto::Http => {
+                    let body = json_body(&mut r, &l);
+                    bar.wait().await;
+                    let (a, st) = http_throttle(hp, &body).await;
+                    (proto, a, st)
+                }
+                Proto::Grpc => {
+                    bar.wait().await;
+                    (proto, grpc_call(gp, &l).await, 0)
+                }
+                Proto::Resp => {
+                    let cmd = resp_command(&mut r, &l);
+                    let c = RespConn::open(rp).await;
+                    bar.wait().await;
+                    match c {
+                        Err(e) => (proto, WireAns::Broken(e), 0),
+                        Ok(mut c) => (proto, resp_answer(c.call(&cmd).await), 0),
+                    }
+                }
+            }
+        }));
+    }
+    let mut v = vec![];
+    for h in hs {
+        v.push(match h.await {
+            Ok(x) => x,
+            Err(e) => (Proto::Http, WireAns::Broken(format!("client task failed: {e}")), 0),
+        });
+    }
+    v
+}
+
+/// keys for the "large request" parity: (what, key).  Control characters and quotes make the JSON body of the HTTP
+/// request several times as large as the key (U+0001 is six bytes in JSON) while RESP and gRPC carry the key as it is;
+/// the plain keys sit just below the largest key a RESP connection accepts.
+pub fn large_keys(rng: &mut Rng, tag: &str, b: i64, c: i64, p: i64) -> Vec<(String, String)> {
+    let mut v = vec![];
+    for (lo, hi) in [(10_000i64, 20_000i64), (20_000, 40_000), (40_000, 60_000)] {
+        let len = rng.range(lo, hi) as usize;
+        let style = rng.below(3);
+        let mut k = String::from(tag);
+        while k.len() < len {
+            k.push(match style {
+                0 => '\u{1}',
+                1 => rng.pick(&['\u{1}', '\n', '"', '\\', '\u{1}', '\u{1f}']),
+                _ => rng.pick(&['\n', '"', '\\']),
+            });
+        }
+        let json = serde_json::to_string(&k).unwrap().len();
+        v.push((format!("{len} bytes of control characters / quotes / backslashes ({json} bytes as a JSON string)"), k));
+    }
+    let max = max_resp_key_len(b, c, p);
+    for len in [65_300usize, rng.range(65_300, 65_480) as usize, 65_480, max] {
+        let mut k = String::from(tag);
+        while k.len() < len {
+            k.push((b'a' + rng.below(26) as u8) as char);
+        }
+        v.push((format!("{len} plain ASCII bytes (the largest key a RESP connection accepts with these limits has {max})"), k));
+    }
+    v
+}
+
 fn parse_proc(l: &str) -> Option<(Vec<String>, String)> {
     let body = l.strip_prefix("proc ")?;
     let (id, resp) = body.split_once(" -> ")?;
@@ -501,6 +593,11 @@ pub fn run(seed: u64, n: usize, out: &mut Out) {
         let mut seen = Seen::default();
         let mut resp_conn: Option<RespConn> = None;
         let mut recent: Vec<String> = vec![];
+        let mut phase_t = std::time::Instant::now();
+        let mut phase = |out: &mut Out, name: &str| {
+            out.add(&format!("ms_{name}"), phase_t.elapsed().as_millis() as u64);
+            phase_t = std::time::Instant::now();
+        };
 
         // ------------------------------------------------------------------ sequential batches
         let batches = (n / 4).max(2);
@@ -665,6 +762,7 @@ pub fn run(seed: u64, n: usize, out: &mut Out) {
             check_metrics(&ports, &metrics, &mut seen, out, &format!("after batch {batch}"), &mut recent).await;
         }
 
+        phase(out, "batches");
         // ------------------------------------------------------------------ concurrency (C09)
         let rounds = (n / 5).max(2);
         for round in 0..rounds {
@@ -767,6 +865,157 @@ pub fn run(seed: u64, n: usize, out: &mut Out) {
         }
         check_metrics(&ports, &metrics, &mut seen, out, "after the concurrency rounds", &mut recent).await;
 
+        phase(out, "concurrency");
+        // ------------------------------------------------------------------ long keys sharing a long prefix (C09, C12)
+        for round in 0..(n / 15).max(1) {
+            let prefix = crate::cmd::FAMILY_PREFIXES[round % 5];
+            let max_len = if round % 5 >= 3 { 60_000 } else { 6_000 };
+            let fam = crate::cmd::prefix_family(&mut rng, &format!("wf{round}_"), prefix, round % 2 == 1, max_len);
+            let b = rng.range(1, 3);
+            let start = rng.below(3) as usize;
+            let mut events: Vec<String> = vec![];
+            let mut idx = 0usize;
+            let mut transcript: Vec<String> = vec![format!("# wire: {}; burst {b}, 1 per 86400 s", fam.what)];
+            // each of the first three keys in turn: burst + 1 requests, rotating over the protocols
+            for (ki, key) in fam.keys[..3].iter().enumerate() {
+                for i in 0..=b {
+                    let proto = [Proto::Http, Proto::Grpc, Proto::Resp][(start + ki + i as usize) % 3];
+                    let l = Logical { key: key.clone(), b, c: 1, p: 86400, q: Some(1) };
+                    let (ans, _) = send_proto(proto, &mut rng, &ports, &l, &mut seen, &mut resp_conn, false).await;
+                    let log = take_log();
+                    let procs: Vec<(Vec<String>, String)> = log.iter().filter_map(|x| parse_proc(x)).collect();
+                    out.bump("family_requests");
+                    transcript.push(format!("# key {} ({} bytes), request {} over {proto:?} -> {}", ki + 1, key.len(), i + 1, ans.show()));
+                    if let WireAns::Ok(false, ..) = ans {
+                        seen.denied += 1;
+                    }
+                    let good = if i < b { matches!(ans, WireAns::Ok(true, lim, rem, _, 0) if lim == b && rem == b - 1 - i) } else { matches!(ans, WireAns::Ok(false, lim, 0, _, _) if lim == b) };
+                    if !good {
+                        let (prop, why) = if matches!(ans, WireAns::Ok(..)) { ("C09", "distinct keys have independent budgets") } else { ("C12", "every protocol answers the request with the limiter's decision") };
+                        out.violation(
+                            prop,
+                            format!("request {} of {} on the so far unused key {} of a family ({}) went over {proto:?} and was answered {}, want ok,{},{b},{},_,_ ({why})", i + 1, b + 1, ki + 1, fam.what, ans.show(), (i < b) as u8, (b - 1 - i).max(0)),
+                            transcript.clone(),
+                        );
+                    }
+                    if procs.len() != 1 || procs[0].1 != ans.show() || procs[0].0[0] != hx(key.as_bytes()) {
+                        out.violation("C12", format!("{proto:?}, key of {} bytes: limiter log {:?}, wire answer {}", key.len(), procs.iter().map(|p| (p.0[0].len() / 2, &p.1)).collect::<Vec<_>>(), ans.show()), transcript.clone());
+                    } else {
+                        let (id, resp) = &procs[0];
+                        events.push(format!("call:0:{idx}:{}", id.join(":")));
+                        events.push(format!("proc:0:{idx}:{resp}"));
+                        events.push(format!("ret:0:{idx}:{}", ans.show()));
+                        idx += 1;
+                    }
+                }
+            }
+            if !events.is_empty() && events.iter().map(|e| e.len()).sum::<usize>() < 400_000 {
+                out.line(format!("atrace-loose {cap} {store_token} {}", events.join(";")), format!("ok {idx}"));
+            }
+            // the fourth key differs from the first (exhausted by now) in its last byte only: N simultaneous requests
+            let key = fam.keys[3].clone();
+            let nreq = (b + rng.range(1, 6)) as usize;
+            let l = Logical { key: key.clone(), b, c: 1, p: 86400, q: Some(1) };
+            let answers = simultaneous(&ports, &mut rng, &l, nreq).await;
+            tokio::time::sleep(Duration::from_millis(5)).await;
+            let log = take_log();
+            let procs: Vec<(Vec<String>, String)> = log.iter().filter_map(|x| parse_proc(x)).collect();
+            let mut admitted = 0i64;
+            for (proto, a, st) in &answers {
+                match proto {
+                    Proto::Http if *st == 200 || *st == 500 => seen.http += 1,
+                    Proto::Grpc if !matches!(a, WireAns::Broken(_)) => seen.grpc += 1,
+                    Proto::Resp if !matches!(a, WireAns::Broken(_)) => seen.resp += 1,
+                    _ => {}
+                }
+                match a {
+                    WireAns::Ok(true, ..) => admitted += 1,
+                    WireAns::Ok(false, ..) => seen.denied += 1,
+                    _ => {}
+                }
+            }
+            out.bump("family_races");
+            transcript.push(format!("# {nreq} simultaneous unit requests on key 4 ({} bytes, = key 1 but for its last byte): {}", key.len(), answers.iter().map(|x| format!("{:?}:{}", x.0, x.1.show())).collect::<Vec<_>>().join(" ")));
+            if admitted != (nreq as i64).min(b) {
+                out.violation("C09", format!("{nreq} simultaneous unit requests over mixed protocols on an unused key of {} bytes, burst {b}, while a key that differs from it in the last byte only is exhausted: {admitted} admitted, want {}", key.len(), (nreq as i64).min(b)), transcript.clone());
+            }
+            if procs.len() == nreq {
+                let mut ev = vec![];
+                for (i, (id, _)) in procs.iter().enumerate() {
+                    ev.push(format!("call:{i}:0:{}", id.join(":")));
+                }
+                for (i, (_, resp)) in procs.iter().enumerate() {
+                    ev.push(format!("proc:{i}:0:{resp}"));
+                    ev.push(format!("ret:{i}:0:{resp}"));
+                }
+                if ev.iter().map(|e| e.len()).sum::<usize>() < 400_000 {
+                    out.line(format!("atrace-loose {cap} {store_token} {}", ev.join(";")), format!("ok {}", procs.len()));
+                }
+            }
+        }
+
+        phase(out, "families");
+        // ------------------------------------------------------------------ large requests: the same answer on every protocol (C12)
+        for round in 0..(n / 40).max(1) {
+            let (b, c, p) = (10i64, 1i64, 3600i64);
+            for (what, key) in large_keys(&mut rng, &format!("wl{round}_"), b, c, p) {
+                let start = rng.below(3) as usize;
+                let mut transcript = vec![format!("# wire: one bucket (burst {b}, {c} per {p} s) addressed over RESP, gRPC and HTTP with a key of {what}")];
+                for i in 0..3usize {
+                    let proto = [Proto::Resp, Proto::Grpc, Proto::Http][(start + i) % 3];
+                    let l = Logical { key: key.clone(), b, c, p, q: if proto == Proto::Grpc { Some(1) } else { None } };
+                    let ans = match proto {
+                        Proto::Resp => match RespConn::open(ports.resp).await {
+                            Ok(mut conn) => {
+                                let r = conn.call(&resp_command_min(&l)).await;
+                                if r.is_ok() {
+                                    seen.resp += 1;
+                                }
+                                resp_answer(r)
+                            }
+                            Err(e) => WireAns::Broken(e),
+                        },
+                        _ => send_proto(proto, &mut rng, &ports, &l, &mut seen, &mut resp_conn, false).await.0,
+                    };
+                    let log = take_log();
+                    let procs: Vec<(Vec<String>, String)> = log.iter().filter_map(|x| parse_proc(x)).collect();
+                    out.bump("large_requests");
+                    let shown = match &ans {
+                        WireAns::Err(e) => format!("error {:?}", e.chars().take(120).collect::<String>()),
+                        a => a.show(),
+                    };
+                    transcript.push(format!("# request {} over {proto:?} -> {shown}", i + 1));
+                    let want_rem = b - 1 - i as i64;
+                    if !matches!(ans, WireAns::Ok(true, lim, rem, _, 0) if lim == b && rem == want_rem) {
+                        out.violation("C12", format!("key of {what}: request {} on the shared bucket went over {proto:?} and was answered {shown}, want ok,1,{b},{want_rem},_,0 as on the other protocols", i + 1), transcript.clone());
+                    } else if procs.len() != 1 || procs[0].1 != ans.show() || procs[0].0[0] != hx(key.as_bytes()) {
+                        out.violation("C12", format!("key of {what} over {proto:?}: limiter log {:?}, wire answer {}", procs.iter().map(|p| (p.0[0].len() / 2, &p.1)).collect::<Vec<_>>(), ans.show()), transcript.clone());
+                    }
+                }
+            }
+            // HTTP alone: bodies of 100 KB and 1 MB are below the framework's 2 MB default
+            for len in [100_000usize, 1_000_000] {
+                let key = format!("wl{round}_http_{}", "k".repeat(len));
+                let l = Logical { key, b, c, p, q: None };
+                let body = json_body(&mut rng, &l);
+                let (ans, status) = http_throttle(ports.http, &body).await;
+                if status == 200 || status == 500 {
+                    seen.http += 1;
+                }
+                take_log();
+                out.bump("large_requests");
+                if !matches!(ans, WireAns::Ok(true, 10, 9, _, 0)) {
+                    let shown = match &ans {
+                        WireAns::Err(e) => format!("error {:?}", e.chars().take(120).collect::<String>()),
+                        a => a.show(),
+                    };
+                    out.violation("C12", format!("HTTP request with a key of {len} bytes (body of {} bytes, below the 2 MB limit) was answered {shown} (status {status}), want ok,1,10,9,_,0", body.len()), vec![format!("# wire: POST /throttle with a key of {len} x 'k'")]);
+                }
+            }
+        }
+        check_metrics(&ports, &metrics, &mut seen, out, "after the long-key rounds", &mut recent).await;
+
+        phase(out, "large_requests");
         // ------------------------------------------------------------------ poison (C11)
         let prounds = (n / 10).max(1);
         for round in 0..prounds {
@@ -900,7 +1149,76 @@ pub fn run(seed: u64, n: usize, out: &mut Out) {
                     out.line(format!("atrace-loose {cap} {store_token} {}", events.join(";")), format!("ok {idx}"));
                 }
             }
-            tokio::time::sleep(Duration::from_millis(20)).await;
+            // requests the limiter REJECTS (burst 0 / count 0 / period 0 / quantity -1: its error path runs, with TRACE
+            // logging enabled) on every hostile key and on keys with a multi-byte character across given byte offsets
+            // (all of 16 .. 1024 over the rounds), on every protocol
+            let t_rej = std::time::Instant::now();
+            {
+                let per_round = 8usize.div_ceil(prounds).max(2);
+                let offs: Vec<usize> = (0..per_round).map(|j| crate::cmd::STRADDLE_OFFSETS[(round * per_round + j) % 8]).collect();
+                for (pi, proto) in [Proto::Http, Proto::Grpc, Proto::Resp].into_iter().enumerate() {
+                    let tag = format!("rj{}_{pi}_", round % 1000);
+                    let mut keys: Vec<(String, String)> = hostile_keys(&tag, ((round * 3 + pi) % 1000) as u32).into_iter().map(|(w, k)| (w.to_string(), k)).collect();
+                    keys.extend(crate::cmd::straddle_keys(&tag, &offs));
+                    for (what, key) in keys {
+                        for (b, c, p, q) in crate::cmd::REJECTED {
+                            let l = Logical { key: key.clone(), b, c, p, q: Some(q) };
+                            let (ans, _) = send_proto(proto, &mut rng, &ports, &l, &mut seen, &mut resp_conn, false).await;
+                            let log = take_log();
+                            let procs: Vec<(Vec<String>, String)> = log.iter().filter_map(|x| parse_proc(x)).collect();
+                            out.bump("rejected_hostile_key_requests");
+                            let txt = match &ans {
+                                WireAns::Err(e) => e.clone(),
+                                a => a.show(),
+                            };
+                            let replay = vec![format!("# wire: {proto:?} request with key of {} bytes ({what}), max_burst {b} count_per_period {c} period {p} quantity {q} -> {}", key.len(), txt.chars().take(200).collect::<String>())];
+                            if let WireAns::Ok(false, ..) = ans {
+                                seen.denied += 1;
+                            }
+                            if procs.len() == 1 && procs[0].1 == "err" && matches!(ans, WireAns::Err(_)) {
+                                continue;
+                            }
+                            descr.push(replay[0][2..].to_string());
+                            out.violation(
+                                "C11",
+                                format!("{proto:?}: a request the limiter must reject with an error (key: {what}, {} bytes; limits {b}/{c}/{p}, quantity {q}) was answered {:?}; limiter log {:?}", key.len(), txt.chars().take(160).collect::<String>(), procs.iter().map(|p| &p.1).collect::<Vec<_>>()),
+                                replay,
+                            );
+                        }
+                        // ... and one it allows, then one it denies (the hostile keys proper had theirs above)
+                        if what.contains("char across byte") && key.ends_with("~t") {
+                            for half in 0..2 {
+                                let l = Logical { key: key.clone(), b: 1, c: 1, p: 3600, q: Some(1) };
+                                let (ans, _) = send_proto(proto, &mut rng, &ports, &l, &mut seen, &mut resp_conn, false).await;
+                                take_log();
+                                out.bump("hostile_key_requests");
+                                if let WireAns::Ok(false, ..) = ans {
+                                    seen.denied += 1;
+                                }
+                                let good = if half == 0 { matches!(ans, WireAns::Ok(true, 1, 0, _, _)) } else { matches!(ans, WireAns::Ok(false, 1, 0, _, rt) if rt >= 0) };
+                                if !good {
+                                    let prop = if matches!(ans, WireAns::Ok(..)) { "C12" } else { "C11" };
+                                    out.violation(prop, format!("{proto:?}: request {} of a pair on a fresh key ({what}, {} bytes), burst 1, 1 per 3600 s, answered {}, want {}", half + 1, key.len(), ans.show(), if half == 0 { "ok,1,1,0,_,_" } else { "ok,0,1,0,_,>=0" }), vec![format!("# wire: key {}", hx(key.as_bytes()))]);
+                                }
+                            }
+                        }
+                    }
+                }
+            }
+            out.add("ms_poison_rejected", t_rej.elapsed().as_millis() as u64);
+            let t_storm = std::time::Instant::now();
+            // abort storms: connections reset (RST) right after connect, some with unread bytes pending, many at once
+            for (name, port) in [("http", ports.http), ("grpc", ports.grpc), ("resp", ports.resp)] {
+                let partials = crate::net::partial_requests(name);
+                let seed2 = rng.next_u64();
+                let total = (n * 4).clamp(100, 400);
+                let st = tokio::task::spawn_blocking(move || crate::net::abort_storm(port, total, 8, &partials, seed2)).await.unwrap_or_default();
+                out.add("aborted_connections", st.connected);
+                out.add(&format!("ms_storm_{name}"), t_storm.elapsed().as_millis() as u64);
+                descr.push(format!("abort storm on the {name} port: {} connections reset (SO_LINGER 0) right after connect, {} of them after writing an incomplete request", st.connected, st.with_data));
+            }
+            out.add("ms_poison_storms", t_storm.elapsed().as_millis() as u64);
+            tokio::time::sleep(Duration::from_millis(50)).await;
             take_log();
             // probes on NEW connections of each protocol
             let mut probe_keys: Vec<String> = vec![];
@@ -992,6 +1310,138 @@ pub fn run(seed: u64, n: usize, out: &mut Out) {
         }
         // the RESP garbage connections and PINGs: commands that were answered count, the rest do not
         check_metrics(&ports, &metrics, &mut seen, out, "after the poison rounds", &mut recent).await;
+
+        phase(out, "poison");
+        // ------------------------------------------------------------------ abandoned requests (C15)
+        // complete requests whose sender closes (FIN) or aborts (RST) the connection at once without reading the answer,
+        // while other connections keep the limiter busy.  Whether such a request is counted depends on timing; the
+        // identities at the quiescent end do not.
+        {
+            let before = counters(&metrics);
+            let nab = (n * 4).clamp(60, 400);
+            let mut tasks = vec![];
+            let answered = Arc::new([std::sync::atomic::AtomicU64::new(0), std::sync::atomic::AtomicU64::new(0), std::sync::atomic::AtomicU64::new(0)]);
+            // the flood: 8 connections' worth of ordinary requests, all answered
+            for f in 0..8usize {
+                let mut r = rng.fork();
+                let (hp, gp, rp) = (ports.http, ports.grpc, ports.resp);
+                let answered = Arc::clone(&answered);
+                tasks.push(tokio::spawn(async move {
+                    let mut conn = RespConn::open(rp).await.ok();
+                    for i in 0..40 {
+                        let l = Logical { key: format!("flood{f}_{}", i % 3), b: 2, c: 1, p: 3600, q: Some(1) };
+                        match (f + i) % 4 {
+                            0 => {
+                                let body = json_body(&mut r, &l);
+                                let (_, st) = http_throttle(hp, &body).await;
+                                if st == 200 || st == 500 {
+                                    answered[0].fetch_add(1, std::sync::atomic::Ordering::SeqCst);
+                                }
+                            }
+                            1 => {
+                                if !matches!(grpc_call(gp, &l).await, WireAns::Broken(_)) {
+                                    answered[1].fetch_add(1, std::sync::atomic::Ordering::SeqCst);
+                                }
+                            }
+                            _ => {
+                                if let Some(c) = conn.as_mut() {
+                                    if c.call(&resp_command(&mut r, &l)).await.is_ok() {
+                                        answered[2].fetch_add(1, std::sync::atomic::Ordering::SeqCst);
+                                    }
+                                }
+                            }
+                        }
+                    }
+                }));
+            }
+            let mut sent = [0u64; 3];
+            for i in 0..nab {
+                let l = Logical { key: format!("abandoned{}", i % 7), b: 2, c: 1, p: 3600, q: Some(1) };
+                let rst = rng.chance(1, 2);
+                let linger = rng.pick(&[0u64, 0, 0, 20, 100, 400]);
+                match i % 5 {
+                    0 | 1 | 2 => {
+                        let req = http_post_bytes(&json_body(&mut rng, &l));
+                        let p = ports.http;
+                        sent[0] += 1;
+                        tasks.push(tokio::spawn(async move {
+                            crate::net::abandon(p, req, rst, linger).await;
+                        }));
+                    }
+                    3 => {
+                        // two commands in one write, neither answer read
+                        let mut req = resp_command(&mut rng, &l);
+                        req.extend(resp_command(&mut rng, &l));
+                        let p = ports.resp;
+                        sent[2] += 2;
+                        tasks.push(tokio::spawn(async move {
+                            crate::net::abandon(p, req, rst, linger).await;
+                        }));
+                    }
+                    _ => {
+                        // an RPC dropped a moment after it was started
+                        let gp = ports.grpc;
+                        sent[1] += 1;
+                        let us = rng.pick(&[50u64, 150, 300, 600, 1500]);
+                        tasks.push(tokio::spawn(async move {
+                            let _ = tokio::time::timeout(Duration::from_micros(us), grpc_call(gp, &l)).await;
+                        }));
+                    }
+                }
+                if i % 16 == 15 {
+                    tokio::task::yield_now().await;
+                }
+            }
+            for t in tasks {
+                let _ = t.await;
+            }
+            take_log();
+            // quiescence: the counters have not moved for 300 ms (at most 5 s)
+            let t0 = std::time::Instant::now();
+            let mut last = counters(&metrics);
+            let mut stable_since = std::time::Instant::now();
+            loop {
+                tokio::time::sleep(Duration::from_millis(20)).await;
+                let c = counters(&metrics);
+                let same = (c.total, c.http, c.grpc, c.redis, c.allowed, c.denied, c.errors) == (last.total, last.http, last.grpc, last.redis, last.allowed, last.denied, last.errors);
+                if !same {
+                    last = c;
+                    stable_since = std::time::Instant::now();
+                }
+                if stable_since.elapsed() >= Duration::from_millis(300) || t0.elapsed() >= Duration::from_secs(5) {
+                    break;
+                }
+            }
+            let c = last;
+            let ans: Vec<u64> = answered.iter().map(|a| a.load(std::sync::atomic::Ordering::SeqCst)).collect();
+            out.add("abandoned_requests", sent.iter().sum());
+            out.add("abandoned_requests_counted", (c.total - before.total).saturating_sub(ans.iter().sum()));
+            let replay = vec![format!(
+                "# wire: {} HTTP requests, {} RESP commands and {} RPCs sent complete and abandoned at once (close or RST, nothing read), next to {} + {} + {} answered requests on other connections; counters before: total {} allowed {} denied {} errors {}",
+                sent[0], sent[2], sent[1], ans[0], ans[1], ans[2], before.total, before.allowed, before.denied, before.errors
+            )];
+            if c.total != c.http + c.grpc + c.redis || c.total != c.allowed + c.denied + c.errors {
+                out.violation("C15", format!("after abandoned requests, at a quiescent point: total {} http {} grpc {} redis {} allowed {} denied {} errors {}: total != http+grpc+redis or total != allowed+denied+errors", c.total, c.http, c.grpc, c.redis, c.allowed, c.denied, c.errors), replay.clone());
+            }
+            let lower = [(c.http, before.http + ans[0], "http"), (c.grpc, before.grpc + ans[1], "grpc"), (c.redis, before.redis + ans[2], "redis")];
+            for (have, least, name) in lower {
+                if have < least {
+                    out.violation("C15", format!("after abandoned requests: {name} counter {have} is below the {least} requests that were answered"), replay.clone());
+                }
+            }
+            let upper = before.total + ans.iter().sum::<u64>() + sent.iter().sum::<u64>();
+            if c.total > upper {
+                out.violation("C15", format!("after abandoned requests: total {} exceeds everything that was sent ({upper})", c.total), replay.clone());
+            }
+            // /metrics shows the same numbers
+            seen.http = c.http;
+            seen.grpc = c.grpc;
+            seen.resp = c.redis;
+            seen.denied = c.denied;
+            seen.errors = c.errors;
+            check_metrics(&ports, &metrics, &mut seen, out, "after the abandoned requests", &mut recent).await;
+        }
+        phase(out, "abandoned");
     });
     rt.shutdown_background();
 }
